@@ -1368,6 +1368,20 @@ func (c *conn) streamReq(p *pkt) {
 	end := binary.BigEndian.Uint64(ex[16:])
 	uuid := binary.BigEndian.Uint64(ex[24:])
 	vb := cl.VBs[p.vb]
+	// a second stream for a vBucket that still has an open stream on this connection is refused (KEY_EEXISTS)
+	vb.mu.Lock()
+	others := append([]*dcpStream{}, vb.streams...)
+	vb.mu.Unlock()
+	for _, os := range others {
+		os.mu.Lock()
+		dup := os.c == c && !os.closed
+		os.mu.Unlock()
+		if dup {
+			cl.logAdd(evlog.Rec{K: "sim.dupstream", VB: int(p.vb), Cn: c.id})
+			c.reply(p, StKeyExists, nil, nil, nil, 0)
+			return
+		}
+	}
 	vb.mu.Lock()
 	if cl.StrictUUID && start != 0 {
 		ok := false
